@@ -362,8 +362,12 @@ def replay_helper(w):
             body.append('for (int i = 0; i <= %d; i++) printf("%%d ", (unsigned char)rv[%d][i]);' % (t, k))
             exp += el[:t] + [0]
         body.append('printf("\\n"); ShroudStrArrayFree(rv, %d);' % ns)
-    # (input buffers are deliberately not released: LeakSanitizer reports only what the helper leaks
-    #  because the driver keeps its own pointers reachable until exit)
+    # the driver releases its own buffers so that LeakSanitizer reports only what the helper leaks
+    joined = " ".join(body)
+    for var, nexpr in (("src", None), ("dest", None)):
+        mm = re.search(r"char \*%s = xalloc\((\d+)\)" % var, joined)
+        if mm:
+            body.append("xfree(%s, %s);" % (var, mm.group(1)))
     prog = pre + "\n".join(srcs) + "\nint main(void) {\n" + "\n".join(body) + "\nreturn 0; }\n"
     rc, out = lc.run_native({"t.cpp" if cxx else "t.c": prog}, cxx=cxx)
     if rc == -999:
